@@ -348,7 +348,9 @@ epserde = {{ workspace = true }}
 """)
     reg = "// @generated\npub fn all() -> Vec<vcore::Entry> {\n    let mut v = Vec::new();\n"
     for k in range(NSHARDS):
-        reg += f"    us{k:02d}::register(&mut v);\n"
+        # `half_a` / `half_b`: only one half of the shards is linked (the golden build of the
+        # thorough universe against the pinned library does not link in one piece)
+        reg += f"    #[cfg(not(feature = \"{'half_b' if k < NSHARDS // 2 else 'half_a'}\"))]\n    us{k:02d}::register(&mut v);\n"
     reg += "    v\n}\n"
     write_if_changed(os.path.join(H, "runner/src/universe.rs"), reg)
     return allt
